@@ -111,7 +111,9 @@ class PyEcoreValue(object):
         if value is not None:
             resource = value.eResource
             # (a resolved proxy stands for the root it wraps)
-            root = getattr(value, '_wrapped', None) or value
+            root = getattr(value, '_wrapped', None)
+            if root is None:
+                root = value
             if resource and any(x is root for x in resource.contents):
                 resource.remove(root)
             prev_container = value._container
